@@ -450,6 +450,17 @@ func NewDecoder(n int, sep string, r io.Reader) (sts.PayloadDecoder, error) {
 			part.Prev = filepath.Join(strings.Split(part.Prev, sep)...)
 		}
 	}
+	if err == nil {
+		// The names are joined onto the stage and target directories by the
+		// receiver, so they must not be able to lead out of them
+		for _, part := range binReader.meta {
+			for _, p := range []string{part.Name, part.Prev, part.Renamed} {
+				if p != "" && !filepath.IsLocal(p) {
+					err = fmt.Errorf("path in payload metadata is not local: %s", p)
+				}
+			}
+		}
+	}
 	return binReader, err
 }
 
